@@ -104,7 +104,7 @@ class Ctx:
             for line in f:
                 line = line.strip()
                 if line:
-                    out.append(json.loads(line))
+                    out.append(_nonull(json.loads(line)))   # (nil Go slices: null means empty)
         return out
 
     # ---------------------------------------------------------------- TLC
